@@ -5,6 +5,13 @@ import Poulpy.Lemmas.MulTensor
 import Poulpy.Lemmas.EpBridge
 import Poulpy.Lemmas.MaskAnd
 import Poulpy.Props.C03
+import Poulpy.Lemmas.GadgetCore
+import Poulpy.Lemmas.MulNorm
+import Poulpy.Lemmas.CnvModel
+import Poulpy.Lemmas.CnvAssign
+import Poulpy.Lemmas.ValBridge
+import Poulpy.Lemmas.AccAdd
+import Poulpy.Props.C02
 import Poulpy.Props.C07
 
 /-!
@@ -322,6 +329,635 @@ example : Ks.phaseRow [] ((Core.gglweProductDft [[[2], [1]]]
       { base2k := 4, n := 1, colsIn := 1, colsOut := 1, dsize := 2, dnum := 1, size := 3, cells := [[[[3], [0], [0]]]] } 3
         [[[9], [9], [9]]]).map (fun col => limbOr0 1 col 0)) = [3] := by decide
 
+/-! ## Value theorems per entry point: product value, accumulator, final normalisation -/
+
+/-- **`relin_product_value`** — relinearisation, every key digit size: if tensor-key row `r`, pair column `p` has phase value
+`σ_p·β^{S−(r+1)·dsize} + E_{p,r}` under the target secret (`σ_p = s_i·s_j` for the pair `p = (i, j)`: checked cell by cell by the oracle), the
+executed gadget product has phase value `Σ_p σ_p·usedVal(a_p) + Σ_p (Σ_r digit·E − dropped − β^S·head)`: the pair columns of the tensor are
+re-encrypted under `s` with the explicit gadget error, for any prior content of `res_dft`. -/
+theorem relin_product_value (N : Nat) (sk : List Poly) (a : List Col) (g : GGLWE) (res0 : List Col)
+    (β : Ks.R N) (σ : ℕ → Ks.R N) (E : ℕ → ℕ → Ks.R N)
+    (hd : 1 ≤ g.dsize) (hN : 0 < N) (hn : g.n = N) (hc : 0 < g.colsOut)
+    (h0 : shapeOk g.n g.colsOut g.size res0 = true) (hM : ∀ j q, (g.toPMat.entry j q).length = N)
+    (hS : g.dnum * g.dsize ≤ g.size)
+    (hkey : ∀ i, i < g.colsIn → ∀ r, r < g.dnum →
+      Gadget.val β g.size (Ks.keyPhase N sk g.toPMat i r) = 1 * σ i * β ^ (g.size - (r + 1) * g.dsize) + E i r) :
+    ∑ l ∈ Finset.range g.size,
+        Ks.ι N (Ks.phaseRow sk ((Core.gglweProductDft a g g.size res0).map (fun col => limbOr0 N col l))) * β ^ (g.size - 1 - l)
+      = 1 * ∑ i ∈ Finset.range g.colsIn,
+            σ i * Gadget.usedVal β g.size g.dsize g.dnum (a.getD 0 []).length (Ks.inLimb N (mkBuf g.n g.colsIn (a.getD 0 []).length a) i)
+        + ∑ i ∈ Finset.range g.colsIn,
+            (∑ r ∈ Finset.range g.dnum,
+                Gadget.digit β g.dsize g.dnum (a.getD 0 []).length (Ks.inLimb N (mkBuf g.n g.colsIn (a.getD 0 []).length a) i) r * E i r
+              - Gadget.dropped β g.size g.dsize g.dnum (a.getD 0 []).length
+                  (Ks.inLimb N (mkBuf g.n g.colsIn (a.getD 0 []).length a) i) (Ks.keyPhase N sk g.toPMat i)
+              - β ^ g.size * Gadget.head β g.dsize g.dnum (a.getD 0 []).length
+                  (Ks.inLimb N (mkBuf g.n g.colsIn (a.getD 0 []).length a) i) (Ks.keyPhase N sk g.toPMat i)) :=
+  gglweProductDft_value N sk a g res0 β 1 σ E hd hN hn hc h0 hM hS hkey
+
+/-- a one-pair tensor key with `dsize = 2` -/
+def exTsk : GGLWE := { base2k := 4, n := 1, colsIn := 1, colsOut := 2, dsize := 2, dnum := 1, size := 3, cells := [[[[1], [0], [0]], [[0], [1], [0]]]] }
+
+example (β : Ks.R 1) (σ : ℕ → Ks.R 1) :
+    ∑ l ∈ Finset.range 3,
+        Ks.ι 1 (Ks.phaseRow [[1]] ((Core.gglweProductDft [[[2], [1]]] exTsk 3 (zeroCols 1 2 3)).map (fun col => limbOr0 1 col l))) * β ^ (3 - 1 - l)
+      = 1 * ∑ i ∈ Finset.range 1, σ i * Gadget.usedVal β 3 2 1 2 (Ks.inLimb 1 (mkBuf 1 1 2 [[[2], [1]]]) i)
+        + ∑ i ∈ Finset.range 1,
+            (∑ r ∈ Finset.range 1, Gadget.digit β 2 1 2 (Ks.inLimb 1 (mkBuf 1 1 2 [[[2], [1]]]) i) r *
+                (Gadget.val β 3 (Ks.keyPhase 1 [[1]] exTsk.toPMat i r) - 1 * σ i * β ^ (3 - (r + 1) * 2))
+              - Gadget.dropped β 3 2 1 2 (Ks.inLimb 1 (mkBuf 1 1 2 [[[2], [1]]]) i) (Ks.keyPhase 1 [[1]] exTsk.toPMat i)
+              - β ^ 3 * Gadget.head β 2 1 2 (Ks.inLimb 1 (mkBuf 1 1 2 [[[2], [1]]]) i) (Ks.keyPhase 1 [[1]] exTsk.toPMat i)) :=
+  relin_product_value 1 [[1]] [[[2], [1]]] exTsk (zeroCols 1 2 3) β σ
+    (fun i r => Gadget.val β 3 (Ks.keyPhase 1 [[1]] exTsk.toPMat i r) - 1 * σ i * β ^ (3 - (r + 1) * 2))
+    (by decide) (by decide) rfl (by decide) (by decide) (Ks.entry_length exTsk.toPMat 1 rfl (by decide +kernel)) (by decide)
+    (by intro i _ r _; exact (add_sub_cancel _ _).symm)
+
+/-- `glwe_tensor_relinearize` as "accumulator, then one normalisation per column": the accumulator is the executed gadget product with the
+tensor's first `rank+1` columns (radix-converted if needed) added limb-wise. -/
+theorem relinearize_accumulator (big128 : Bool) (n rb rs : Nat) (a : List Col) (ab : Nat) (g : GGLWE) (res0 res : List Col)
+    (h : relinearize big128 n rb rs a ab g g.size res0 = some res) :
+    ∃ aD acc : List Col,
+      (List.range g.colsOut).mapM (fun i =>
+        if ab = g.base2k then some (bigAddSmallAssign big128 ((Core.gglweProductDft aD g g.size res0).getD i []) (a.getD i []))
+        else (normalizeCol? g.base2k (((a.getD 0 []).length * ab + g.base2k - 1) / g.base2k) 0 (a.getD i []) ab n).map
+          (fun c => bigAddSmallAssign big128 ((Core.gglweProductDft aD g g.size res0).getD i []) c)) = some acc ∧
+      acc.mapM (fun c => bigNormalizeOff big128 n rb rs 0 c g.base2k) = some res := by
+  unfold relinearize at h
+  simp only [Option.bind_eq_some_iff] at h
+  obtain ⟨aD, _, acc, hacc, hres⟩ := h
+  exact ⟨aD, acc, hacc, hres⟩
+
+example : ∃ aD acc : List Col,
+    (List.range 2).mapM (fun i => if 4 = 4 then some (bigAddSmallAssign false ((Core.gglweProductDft aD exTsk 3 (zeroCols 1 2 3)).getD i [])
+        ([[[1], [0]], [[0], [1]], [[2], [1]]].getD i []))
+      else (normalizeCol? 4 ((2 * 4 + 4 - 1) / 4) 0 ([[[1], [0]], [[0], [1]], [[2], [1]]].getD i []) 4 1).map
+        (fun c => bigAddSmallAssign false ((Core.gglweProductDft aD exTsk 3 (zeroCols 1 2 3)).getD i []) c)) = some acc ∧
+    acc.mapM (fun c => bigNormalizeOff false 1 4 3 0 c 4) = some [[[2], [0], [0]], [[2], [2], [0]]] := by
+  have h : relinearize false 1 4 3 [[[1], [0]], [[0], [1]], [[2], [1]]] 4 exTsk 3 (zeroCols 1 2 3) = some [[[2], [0], [0]], [[2], [2], [0]]] := by
+    decide +kernel
+  exact relinearize_accumulator false 1 4 3 _ 4 exTsk _ _ h
+
+/-- **`relin_result_phase_modulo_norm`** — the relinearised **ciphertext**: its phase relates to the exact phase of the accumulator
+(`relin_product_value` + the tensor's first columns) as the C08 kernel relates the columns, `A·val(out) = B·val(acc) + E_i`, with the explicit
+error `E₀ + Σ s_i ⋆ E_{i+1}`; same or different radices (`_modulo_norm`: conditional on the kernel's value relation). -/
+theorem relin_result_phase_modulo_norm {N : Nat} (big128 : Bool) (rb rs : Nat) (g : GGLWE) (acc res : List Col)
+    (hm : acc.mapM (fun c => bigNormalizeOff big128 N rb rs 0 c g.base2k) = some res)
+    (hres : C02L.GWF N (Ks.mkCt rb N res)) (hacc : C02L.GWF N (Ks.mkCt g.base2k N acc))
+    (A B : Int) (E : Nat → Poly) (hE : ∀ i, (E i).length = N)
+    (hK : ∀ i, i < acc.length → ∀ C, bigNormalizeOff big128 N rb rs 0 (acc.getD i []) g.base2k = some C →
+      polyScale A (C02L.valP rb N C) = polyAdd (polyScale B (C02L.valP g.base2k N (acc.getD i []))) (E i))
+    (s : List Poly) :
+    polyScale A (C02L.valP rb N (Core.Ops.phase s (Ks.mkCt rb N res)))
+      = polyAdd (polyScale B (C02L.valP g.base2k N (Core.Ops.phase s (Ks.mkCt g.base2k N acc))))
+          (C02L.errTo (min (acc.length - 1) s.length) s E) :=
+  mapM_kernel_phase_modulo_norm _ rb g.base2k acc res hm hres hacc A B E hE hK s
+
+example (s : List Poly) :
+    polyScale 16 (C02L.valP 4 1 (Core.Ops.phase s (Ks.mkCt 4 1 [[[6], [0]], [[2], [0]]])))
+      = polyAdd (polyScale 1 (C02L.valP exTsk.base2k 1 (Core.Ops.phase s (Ks.mkCt exTsk.base2k 1 [[[6], [0], [0]], [[2], [0], [0]]]))))
+          (C02L.errTo (min (2 - 1) s.length) s (fun _ => [0])) :=
+  relin_result_phase_modulo_norm (N := 1) false 4 2 exTsk [[[6], [0], [0]], [[2], [0], [0]]] [[[6], [0]], [[2], [0]]]
+    (by decide) (by decide) (by decide) 16 1 (fun _ => [0]) (fun _ => rfl)
+    (by
+      intro i hi C hC
+      have hi' : i = 0 ∨ i = 1 := by simp at hi; omega
+      rcases hi' with rfl | rfl
+      · have e : bigNormalizeOff false 1 4 2 0 [[6], [0], [0]] exTsk.base2k = some [[6], [0]] := by decide
+        have hC' := e.symm.trans hC; injection hC' with hC'; subst hC'; decide
+      · have e : bigNormalizeOff false 1 4 2 0 [[2], [0], [0]] exTsk.base2k = some [[2], [0]] := by decide
+        have hC' := e.symm.trans hC; injection hC' with hC'; subst hC'; decide) s
+
+/-- **`mul_const_result_phase_modulo_norm`** — `glwe_mul_const` / `glwe_mul_const_assign`: the result is the column-wise normalisation
+(bit offset `lo` of the `cnv_offset` split, `cnvOffsetSplit_total`) of the exact constant convolutions `cnv_by_const_apply(hi, a_i, b)`; its phase
+relates to the phase of those accumulators as the kernel relates the columns (`B` carries the factor `2^{lo}`). -/
+theorem mul_const_result_phase_modulo_norm {N : Nat} (assign big128 : Bool) (rb rs off b : Nat) (a : List Col) (cst : List Int) (res : List Col)
+    (h : mulConst assign big128 N rb rs off b a cst = some res)
+    (hres : C02L.GWF N (Ks.mkCt rb N res))
+    (hacc : C02L.GWF N (Ks.mkCt b N (a.map (fun x => cnvByConstCol N
+      (if assign then rs else (a.getD 0 []).length + cst.length - (cnvOffsetSplit b off).1) (cnvOffsetSplit b off).1 x cst))))
+    (A B : Int) (E : Nat → Poly) (hE : ∀ i, (E i).length = N)
+    (hK : ∀ i, i < a.length → ∀ C,
+      bigNormalizeOff big128 N rb rs (cnvOffsetSplit b off).2
+        ((a.map (fun x => cnvByConstCol N (if assign then rs else (a.getD 0 []).length + cst.length - (cnvOffsetSplit b off).1)
+          (cnvOffsetSplit b off).1 x cst)).getD i []) b = some C →
+      polyScale A (C02L.valP rb N C) = polyAdd (polyScale B (C02L.valP b N
+        ((a.map (fun x => cnvByConstCol N (if assign then rs else (a.getD 0 []).length + cst.length - (cnvOffsetSplit b off).1)
+          (cnvOffsetSplit b off).1 x cst)).getD i []))) (E i))
+    (s : List Poly) :
+    polyScale A (C02L.valP rb N (Core.Ops.phase s (Ks.mkCt rb N res)))
+      = polyAdd (polyScale B (C02L.valP b N (Core.Ops.phase s (Ks.mkCt b N (a.map (fun x => cnvByConstCol N
+          (if assign then rs else (a.getD 0 []).length + cst.length - (cnvOffsetSplit b off).1) (cnvOffsetSplit b off).1 x cst))))))
+          (C02L.errTo (min (a.length - 1) s.length) s E) := by
+  have hm : (a.map (fun x => cnvByConstCol N (if assign then rs else (a.getD 0 []).length + cst.length - (cnvOffsetSplit b off).1)
+      (cnvOffsetSplit b off).1 x cst)).mapM (fun c => bigNormalizeOff big128 N rb rs (cnvOffsetSplit b off).2 c b) = some res := by
+    rw [← mapM_comp]
+    exact h
+  have := mapM_kernel_phase_modulo_norm _ rb b _ res hm hres hacc A B E hE (by simpa using hK) s
+  simpa using this
+
+example (s : List Poly) :
+    polyScale 16 (C02L.valP 4 1 (Core.Ops.phase s (Ks.mkCt 4 1 [[[6], [0]], [[2], [0]]])))
+      = polyAdd (polyScale 1 (C02L.valP 4 1 (Core.Ops.phase s (Ks.mkCt 4 1 ([[[3], [0]], [[1], [0]]].map (fun x => cnvByConstCol 1
+          (if false then 2 else ([[[3], [0]], [[1], [0]]].getD 0 []).length + [2].length - (cnvOffsetSplit 4 4).1) (cnvOffsetSplit 4 4).1 x [2]))))))
+          (C02L.errTo (min (2 - 1) s.length) s (fun _ => [0])) :=
+  mul_const_result_phase_modulo_norm (N := 1) false false 4 2 4 4 [[[3], [0]], [[1], [0]]] [2] [[[6], [0]], [[2], [0]]]
+    (by decide) (by decide) (by decide) 16 1 (fun _ => [0]) (fun _ => rfl)
+    (by
+      intro i hi C hC
+      have hi' : i = 0 ∨ i = 1 := by simp at hi; omega
+      rcases hi' with rfl | rfl
+      · have e : bigNormalizeOff false 1 4 2 (cnvOffsetSplit 4 4).2 (([[[3], [0]], [[1], [0]]].map (fun x => cnvByConstCol 1
+            (if false then 2 else ([[[3], [0]], [[1], [0]]].getD 0 []).length + [2].length - (cnvOffsetSplit 4 4).1) (cnvOffsetSplit 4 4).1 x [2])).getD 0 []) 4
+            = some [[6], [0]] := by decide
+        have hC' := e.symm.trans hC; injection hC' with hC'; subst hC'; decide
+      · have e : bigNormalizeOff false 1 4 2 (cnvOffsetSplit 4 4).2 (([[[3], [0]], [[1], [0]]].map (fun x => cnvByConstCol 1
+            (if false then 2 else ([[[3], [0]], [[1], [0]]].getD 0 []).length + [2].length - (cnvOffsetSplit 4 4).1) (cnvOffsetSplit 4 4).1 x [2])).getD 1 []) 4
+            = some [[2], [0]] := by decide
+        have hC' := e.symm.trans hC; injection hC' with hC'; subst hC'; decide) s
+
+/-- **`mul_plain_result_phase_modulo_norm`** — `glwe_mul_plain` / `glwe_mul_plain_assign`: the result is the column-wise normalisation (bit
+offset `lo`) of the exact convolutions `cnv_apply_dft(hi, a'_i, pt')` of the masked operands (`mask_keeps_top_bits`); its phase relates to the
+phase of those accumulators as the kernel relates the columns. -/
+theorem mul_plain_result_phase_modulo_norm {N : Nat} (big128 : Bool) (rb rs off b : Nat) (a : List Col) (aK : Nat) (pt : Col) (bK : Nat)
+    (res : List Col) (h : mulPlain big128 N rb rs off b a aK pt bK = some res)
+    (hres : C02L.GWF N (Ks.mkCt rb N res))
+    (hacc : C02L.GWF N (Ks.mkCt b N ((prepAll N (msbMaskBottomLimb b aK) a).map (fun x => Hal.cnvApplyCol N ((a.getD 0 []).length + pt.length - (cnvOffsetSplit b off).1) (cnvOffsetSplit b off).1 x (Hal.cnvPrepareCol N pt.length (msbMaskBottomLimb b bK) pt)))))
+    (A B : Int) (E : Nat → Poly) (hE : ∀ i, (E i).length = N)
+    (hK : ∀ i, i < a.length → ∀ C,
+      bigNormalizeOff big128 N rb rs (cnvOffsetSplit b off).2 (((prepAll N (msbMaskBottomLimb b aK) a).map (fun x => Hal.cnvApplyCol N ((a.getD 0 []).length + pt.length - (cnvOffsetSplit b off).1) (cnvOffsetSplit b off).1 x (Hal.cnvPrepareCol N pt.length (msbMaskBottomLimb b bK) pt))).getD i []) b = some C →
+      polyScale A (C02L.valP rb N C) = polyAdd (polyScale B (C02L.valP b N (((prepAll N (msbMaskBottomLimb b aK) a).map (fun x => Hal.cnvApplyCol N ((a.getD 0 []).length + pt.length - (cnvOffsetSplit b off).1) (cnvOffsetSplit b off).1 x (Hal.cnvPrepareCol N pt.length (msbMaskBottomLimb b bK) pt))).getD i []))) (E i))
+    (s : List Poly) :
+    polyScale A (C02L.valP rb N (Core.Ops.phase s (Ks.mkCt rb N res)))
+      = polyAdd (polyScale B (C02L.valP b N (Core.Ops.phase s (Ks.mkCt b N ((prepAll N (msbMaskBottomLimb b aK) a).map (fun x => Hal.cnvApplyCol N ((a.getD 0 []).length + pt.length - (cnvOffsetSplit b off).1) (cnvOffsetSplit b off).1 x (Hal.cnvPrepareCol N pt.length (msbMaskBottomLimb b bK) pt)))))))
+          (C02L.errTo (min (a.length - 1) s.length) s E) := by
+  have hm : ((prepAll N (msbMaskBottomLimb b aK) a).map (fun x => Hal.cnvApplyCol N ((a.getD 0 []).length + pt.length - (cnvOffsetSplit b off).1) (cnvOffsetSplit b off).1 x (Hal.cnvPrepareCol N pt.length (msbMaskBottomLimb b bK) pt))).mapM (fun c => bigNormalizeOff big128 N rb rs (cnvOffsetSplit b off).2 c b) = some res := by
+    rw [← mapM_comp]
+    exact h
+  have := mapM_kernel_phase_modulo_norm _ rb b _ res hm hres hacc A B E hE (by simpa [prepAll] using hK) s
+  simpa [prepAll] using this
+
+example (s : List Poly) :
+    polyScale 16 (C02L.valP 4 1 (Core.Ops.phase s (Ks.mkCt 4 1 [[[6], [0]], [[2], [0]]])))
+      = polyAdd (polyScale 1 (C02L.valP 4 1 (Core.Ops.phase s (Ks.mkCt 4 1 [[[6], [0], [0]], [[2], [0], [0]]]))))
+          (C02L.errTo (min (2 - 1) s.length) s (fun _ => [0])) :=
+  mul_plain_result_phase_modulo_norm (N := 1) false 4 2 4 4 [[[3], [0]], [[1], [0]]] 8 [[2]] 4 [[[6], [0]], [[2], [0]]]
+    (by decide) (by decide) (by decide) 16 1 (fun _ => [0]) (fun _ => rfl)
+    (by
+      intro i hi C hC
+      have hi' : i = 0 ∨ i = 1 := by simp at hi; omega
+      rcases hi' with rfl | rfl
+      · have e : bigNormalizeOff false 1 4 2 0 [[6], [0], [0]] 4 = some [[6], [0]] := by decide
+        have hC' := e.symm.trans hC; injection hC' with hC'; subst hC'; decide
+      · have e : bigNormalizeOff false 1 4 2 0 [[2], [0], [0]] 4 = some [[2], [0]] := by decide
+        have hC' := e.symm.trans hC; injection hC' with hC'; subst hC'; decide) s
+
+/-- **`mul_const_phase_value`** — `glwe_mul_const` decrypts to the product at the documented scale, accumulator level (every rank, every
+limb count, every constant length, every `cnv_offset_hi ≤ sa + sb − 1`): the `sa + sb − hi` limbs of the exact accumulators
+`cnv_by_const_apply(hi, a_i, b)` have a phase whose value, plus `β^{sa+sb−hi}` times the `hi` skipped top limbs (a multiple of the torus
+modulus), is `β · val(phase a) · val(b)` — on the torus `phase(a)·b·β^{hi+1}`; the normalisation (`mul_const_result_phase_modulo_norm`) applies the
+remaining `2^{lo}`, and `(hi+1)·base2k + lo = cnv_offset` (`cnvOffsetSplit_total`): the result is `phase(a)·b·2^{cnv_offset}`.
+(`Lemmas/CnvValue.lean`: Cauchy product with descending weights; `Lemmas/CnvModel.lean`: the executed loops `jMin..jMax` are that product.) -/
+theorem mul_const_phase_value (N : Nat) (hN : 0 < N) (sk : List Poly) (a0 : Col) (as : List Col) (b : List Int) (hi sa : Nat) (β : Ks.R N)
+    (h0 : a0.length = sa) (hall : ∀ x ∈ as, x.length = sa) (hx0 : ∀ l ∈ a0, l.length = N) (hxs : ∀ x ∈ as, ∀ l ∈ x, l.length = N)
+    (hsa : 1 ≤ sa) (hsb : 1 ≤ b.length) (hhi : hi ≤ sa + b.length - 1) :
+    ∑ k ∈ Finset.range (sa + b.length - hi),
+        Ks.ι N (Ks.phaseRow sk (((a0 :: as).map (fun x => cnvByConstCol N (sa + b.length - hi) hi x b)).map (fun col => limbOr0 N col k)))
+          * β ^ (sa + b.length - hi - 1 - k)
+      + β ^ (sa + b.length - hi) * (constTop N β a0 b hi
+          + ∑ i ∈ Finset.range (min sk.length as.length), Ks.ι N (sk.getD i []) * constTop N β (as.getD i []) b hi)
+      = β * (colVal N β a0 + ∑ i ∈ Finset.range (min sk.length as.length), Ks.ι N (sk.getD i []) * colVal N β (as.getD i [])) * constVal N β b :=
+  mulConst_phase_value N hN sk a0 as b hi sa β h0 hall hx0 hxs hsa hsb hhi
+
+example (β : Ks.R 1) :
+    ∑ k ∈ Finset.range (2 + 1 - 0),
+        Ks.ι 1 (Ks.phaseRow [[1]] (((([[3], [0]] : Col) :: [[[1], [0]]]).map (fun x => cnvByConstCol 1 (2 + 1 - 0) 0 x [2])).map
+          (fun col => limbOr0 1 col k))) * β ^ (2 + 1 - 0 - 1 - k)
+      + β ^ (2 + 1 - 0) * (constTop 1 β [[3], [0]] [2] 0
+          + ∑ i ∈ Finset.range (min 1 1), Ks.ι 1 (([[1]] : List Poly).getD i []) * constTop 1 β (([[[1], [0]]] : List Col).getD i []) [2] 0)
+      = β * (colVal 1 β [[3], [0]] + ∑ i ∈ Finset.range (min 1 1), Ks.ι 1 (([[1]] : List Poly).getD i []) * colVal 1 β (([[[1], [0]]] : List Col).getD i []))
+          * constVal 1 β [2] :=
+  mul_const_phase_value 1 (by decide) [[1]] [[3], [0]] [[[1], [0]]] [2] 0 2 β rfl (by decide) (by decide) (by decide) (by decide) (by decide) (by decide)
+
+/-- **`mul_const_assign_accumulator_truncates`** — `glwe_mul_const_assign`: the accumulator of `res.size = R` limbs is the first `R` limbs of the
+full constant convolution (every `R ≤ F`; `cnv_by_const_apply` computes limb `k` independently of the result size). -/
+theorem mul_const_assign_accumulator_truncates (n R F hi : Nat) (x : Col) (b : List Int) (h : R ≤ F) :
+    cnvByConstCol n R hi x b = (cnvByConstCol n F hi x b).take R :=
+  cnvByConstCol_take n R F hi x b h
+
+example : cnvByConstCol 1 2 0 [[3], [5]] [2, 1] = (cnvByConstCol 1 4 0 [[3], [5]] [2, 1]).take 2 :=
+  mul_const_assign_accumulator_truncates 1 2 4 0 _ _ (by decide)
+
+/-- **`mul_const_assign_phase_value`** — `glwe_mul_const_assign` decrypts to the product at the documented scale, accumulator level: the
+`R = res.size`-limb accumulator's phase, rescaled by `β^{F−R}` (`F = sa + sb − hi`), plus the explicit dropped bottom limbs `R ≤ k < F` of the full
+convolution and `β^F` times the skipped top limbs, is `β · val(phase a) · val(b)`. -/
+theorem mul_const_assign_phase_value (N : Nat) (hN : 0 < N) (sk : List Poly) (a0 : Col) (as : List Col) (b : List Int) (hi sa R : Nat)
+    (β : Ks.R N)
+    (h0 : a0.length = sa) (hall : ∀ x ∈ as, x.length = sa) (hx0 : ∀ l ∈ a0, l.length = N) (hxs : ∀ x ∈ as, ∀ l ∈ x, l.length = N)
+    (hsa : 1 ≤ sa) (hsb : 1 ≤ b.length) (hhi : hi ≤ sa + b.length - 1) (hR : R ≤ sa + b.length - hi) :
+    β ^ (sa + b.length - hi - R) * ∑ k ∈ Finset.range R,
+        Ks.ι N (Ks.phaseRow sk (((a0 :: as).map (fun x => cnvByConstCol N R hi x b)).map (fun col => limbOr0 N col k))) * β ^ (R - 1 - k)
+      + ∑ k ∈ Finset.Ico R (sa + b.length - hi),
+        Ks.ι N (Ks.phaseRow sk (((a0 :: as).map (fun x => cnvByConstCol N (sa + b.length - hi) hi x b)).map (fun col => limbOr0 N col k)))
+          * β ^ (sa + b.length - hi - 1 - k)
+      + β ^ (sa + b.length - hi) * (constTop N β a0 b hi
+          + ∑ i ∈ Finset.range (min sk.length as.length), Ks.ι N (sk.getD i []) * constTop N β (as.getD i []) b hi)
+      = β * (colVal N β a0 + ∑ i ∈ Finset.range (min sk.length as.length), Ks.ι N (sk.getD i []) * colVal N β (as.getD i [])) * constVal N β b :=
+  mulConstAssign_phase_value N hN sk a0 as b hi sa R β h0 hall hx0 hxs hsa hsb hhi hR
+
+example (β : Ks.R 1) :
+    β ^ (2 + 1 - 0 - 2) * ∑ k ∈ Finset.range 2,
+        Ks.ι 1 (Ks.phaseRow [[1]] (((([[3], [0]] : Col) :: [[[1], [0]]]).map (fun x => cnvByConstCol 1 2 0 x [2])).map
+          (fun col => limbOr0 1 col k))) * β ^ (2 - 1 - k)
+      + ∑ k ∈ Finset.Ico 2 (2 + 1 - 0),
+        Ks.ι 1 (Ks.phaseRow [[1]] (((([[3], [0]] : Col) :: [[[1], [0]]]).map (fun x => cnvByConstCol 1 (2 + 1 - 0) 0 x [2])).map
+          (fun col => limbOr0 1 col k))) * β ^ (2 + 1 - 0 - 1 - k)
+      + β ^ (2 + 1 - 0) * (constTop 1 β [[3], [0]] [2] 0
+          + ∑ i ∈ Finset.range (min 1 1), Ks.ι 1 (([[1]] : List Poly).getD i []) * constTop 1 β (([[[1], [0]]] : List Col).getD i []) [2] 0)
+      = β * (colVal 1 β [[3], [0]] + ∑ i ∈ Finset.range (min 1 1), Ks.ι 1 (([[1]] : List Poly).getD i []) * colVal 1 β (([[[1], [0]]] : List Col).getD i []))
+          * constVal 1 β [2] :=
+  mul_const_assign_phase_value 1 (by decide) [[1]] [[3], [0]] [[[1], [0]]] [2] 0 2 2 β rfl (by decide) (by decide) (by decide) (by decide) (by decide)
+    (by decide) (by decide)
+
+/-- **`mul_plain_phase_value`** — `glwe_mul_plain` decrypts to the product at the documented scale, accumulator level: for the masked operands
+`a'` (`cnv_prepare_left`) and `pt'` (`cnv_prepare_right`), the phase of the `sa + sb − hi` limbs of `cnv_apply_dft(hi, a'_i, pt')`, plus
+`β^{sa+sb−hi}` times the skipped top limbs, has the value `β · val(phase a') · val(pt')`: on the torus `phase(a')·pt'·β^{hi+1}`, and `·2^{lo}` by the
+normalisation (`mul_plain_result_phase_modulo_norm`), i.e. `phase(a')·pt'·2^{cnv_offset}` (`cnvOffsetSplit_total`).  The same column identity
+(`Core.cnvApply_column_value`) holds for every diagonal and pairwise product of the tensor forms. -/
+theorem mul_plain_phase_value (N : Nat) (hN : 0 < N) (sk : List Poly) (a0 : Col) (as : List Col) (pt : Col) (hi sa : Nat) (β : Ks.R N)
+    (h0 : a0.length = sa) (hall : ∀ x ∈ as, x.length = sa) (hx0 : ∀ l ∈ a0, l.length = N) (hxs : ∀ x ∈ as, ∀ l ∈ x, l.length = N)
+    (hpt : ∀ l ∈ pt, l.length = N) (hsa : 1 ≤ sa) (hsb : 1 ≤ pt.length) (hhi : hi ≤ sa + pt.length - 1) :
+    ∑ k ∈ Finset.range (sa + pt.length - hi),
+        Ks.ι N (Ks.phaseRow sk (((a0 :: as).map (fun x => Hal.cnvApplyCol N (sa + pt.length - hi) hi x pt)).map (fun col => limbOr0 N col k)))
+          * β ^ (sa + pt.length - hi - 1 - k)
+      + β ^ (sa + pt.length - hi) * (plainTop N β a0 pt hi
+          + ∑ i ∈ Finset.range (min sk.length as.length), Ks.ι N (sk.getD i []) * plainTop N β (as.getD i []) pt hi)
+      = β * (colVal N β a0 + ∑ i ∈ Finset.range (min sk.length as.length), Ks.ι N (sk.getD i []) * colVal N β (as.getD i [])) * colVal N β pt :=
+  mulPlain_phase_value N hN sk a0 as pt hi sa β h0 hall hx0 hxs hpt hsa hsb hhi
+
+example (β : Ks.R 1) :
+    ∑ k ∈ Finset.range (2 + 1 - 0),
+        Ks.ι 1 (Ks.phaseRow [[1]] (((([[3], [0]] : Col) :: [[[1], [0]]]).map (fun x => Hal.cnvApplyCol 1 (2 + 1 - 0) 0 x [[2]])).map
+          (fun col => limbOr0 1 col k))) * β ^ (2 + 1 - 0 - 1 - k)
+      + β ^ (2 + 1 - 0) * (plainTop 1 β [[3], [0]] [[2]] 0
+          + ∑ i ∈ Finset.range (min 1 1), Ks.ι 1 (([[1]] : List Poly).getD i []) * plainTop 1 β (([[[1], [0]]] : List Col).getD i []) [[2]] 0)
+      = β * (colVal 1 β [[3], [0]] + ∑ i ∈ Finset.range (min 1 1), Ks.ι 1 (([[1]] : List Poly).getD i []) * colVal 1 β (([[[1], [0]]] : List Col).getD i []))
+          * colVal 1 β [[2]] :=
+  mul_plain_phase_value 1 (by decide) [[1]] [[3], [0]] [[[1], [0]]] [[2]] 0 2 β rfl (by decide) (by decide) (by decide) (by decide) (by decide)
+    (by decide) (by decide)
+
+/-! ## Composed statements: result phase = product at the documented scale (modulo the C08 kernel relation) -/
+
+/-- **`mul_const_decrypts`** — `glwe_mul_const`, one statement in one value domain (`R N = ℤ[X]/(X^N+1)`, `β = 2^{base2k}`): `A·phase(result)`
+plus `B·β^F·`(skipped top limbs, a multiple of the torus modulus) equals `B·β·val(phase a)·val(b)` plus the explicit normalisation error
+`E₀ + Σ s_i E_{i+1}`, where `(A, B, E)` is the value relation of the C08 kernel on each accumulator column (`hK`; for equal radices
+`C08.normalize_inter_value` discharges it with `A = 2^{…}`, `B = 2^{lo}`-type factors).  Composition of `mul_const_phase_value` and
+`mul_const_result_phase_modulo_norm` through `Lemmas/ValBridge.lean` (`ι ∘ valP ∘ phase` = weighted per-limb phases). -/
+theorem mul_const_decrypts {N : Nat} (hN : 0 < N) (big128 : Bool) (rb rs off b sa : Nat) (a0 : Col) (as : List Col) (cst : List Int)
+    (res : List Col) (h : mulConst false big128 N rb rs off b (a0 :: as) cst = some res)
+    (h0 : a0.length = sa) (hall : ∀ x ∈ as, x.length = sa) (hx0 : ∀ l ∈ a0, l.length = N) (hxs : ∀ x ∈ as, ∀ l ∈ x, l.length = N)
+    (hsa : 1 ≤ sa) (hsb : 1 ≤ cst.length) (hhi : (cnvOffsetSplit b off).1 ≤ sa + cst.length - 1)
+    (hres : C02L.GWF N (Ks.mkCt rb N res))
+    (A B : Int) (E : Nat → Poly) (hE : ∀ i, (E i).length = N)
+    (hK : ∀ i, i < as.length + 1 → ∀ C,
+      bigNormalizeOff big128 N rb rs (cnvOffsetSplit b off).2
+        (((a0 :: as).map (fun x => cnvByConstCol N (sa + cst.length - (cnvOffsetSplit b off).1) (cnvOffsetSplit b off).1 x cst)).getD i []) b = some C →
+      polyScale A (C02L.valP rb N C) = polyAdd (polyScale B (C02L.valP b N
+        (((a0 :: as).map (fun x => cnvByConstCol N (sa + cst.length - (cnvOffsetSplit b off).1) (cnvOffsetSplit b off).1 x cst)).getD i []))) (E i))
+    (s : List Poly) :
+    (A : Ks.R N) * Ks.ι N (C02L.valP rb N (Core.Ops.phase s (Ks.mkCt rb N res)))
+      + (B : Ks.R N) * (((2 : Ks.R N) ^ b) ^ (sa + cst.length - (cnvOffsetSplit b off).1) * (constTop N ((2 : Ks.R N) ^ b) a0 cst (cnvOffsetSplit b off).1
+          + ∑ i ∈ Finset.range (min s.length as.length), Ks.ι N (s.getD i []) * constTop N ((2 : Ks.R N) ^ b) (as.getD i []) cst (cnvOffsetSplit b off).1))
+      = (B : Ks.R N) * ((2 : Ks.R N) ^ b * (colVal N ((2 : Ks.R N) ^ b) a0
+          + ∑ i ∈ Finset.range (min s.length as.length), Ks.ι N (s.getD i []) * colVal N ((2 : Ks.R N) ^ b) (as.getD i [])) * constVal N ((2 : Ks.R N) ^ b) cst)
+        + Ks.ι N (C02L.errTo (min as.length s.length) s E) := by
+  subst h0
+  have hm : ((a0 :: as).map (fun x => cnvByConstCol N (a0.length + cst.length - (cnvOffsetSplit b off).1) (cnvOffsetSplit b off).1 x cst)).mapM
+      (fun c => bigNormalizeOff big128 N rb rs (cnvOffsetSplit b off).2 c b) = some res := by
+    rw [← mapM_comp]
+    exact h
+  have hwf : ∀ c ∈ (a0 :: as).map (fun x => cnvByConstCol N (a0.length + cst.length - (cnvOffsetSplit b off).1) (cnvOffsetSplit b off).1 x cst),
+      C02L.ColWF N (a0.length + cst.length - (cnvOffsetSplit b off).1) c := by
+    intro c hc
+    obtain ⟨x, hx, rfl⟩ := List.mem_map.mp hc
+    apply cnvByConstCol_wf
+    rcases List.mem_cons.mp hx with e | e
+    · rw [e]; exact hx0
+    · exact hxs x e
+  have hne : (a0 :: as).map (fun x => cnvByConstCol N (a0.length + cst.length - (cnvOffsetSplit b off).1) (cnvOffsetSplit b off).1 x cst) ≠ [] := by simp
+  have hacc : C02L.GWF N (Ks.mkCt b N ((a0 :: as).map (fun x => cnvByConstCol N (a0.length + cst.length - (cnvOffsetSplit b off).1) (cnvOffsetSplit b off).1 x cst))) := by
+    refine ⟨rfl, hne, ?_⟩
+    intro c hc
+    have e : (Ks.mkCt b N ((a0 :: as).map (fun x => cnvByConstCol N (a0.length + cst.length - (cnvOffsetSplit b off).1) (cnvOffsetSplit b off).1 x cst))).size
+        = a0.length + cst.length - (cnvOffsetSplit b off).1 := by
+      simp [GLWE.size, Ks.mkCt, Core.cnvByConstCol]
+    rw [e]
+    exact hwf c hc
+  have h1 := mapM_kernel_phase_modulo_norm _ rb b _ res hm hres hacc A B E hE (by
+    intro i hi C hC
+    exact hK i (by simpa using hi) C hC) s
+  have e1 : ((a0 :: as).map (fun x => cnvByConstCol N (a0.length + cst.length - (cnvOffsetSplit b off).1) (cnvOffsetSplit b off).1 x cst)).length - 1 = as.length := by simp
+  rw [e1] at h1
+  have h2 := phase_norm_compose N hN rb b _ s res _ hne hwf A B _ (C02L.errTo_length _ s E hE) h1
+  have h3 := mul_const_phase_value N hN s a0 as cst (cnvOffsetSplit b off).1 a0.length ((2 : Ks.R N) ^ b) rfl hall hx0 hxs hsa hsb hhi
+  rw [h2, ← h3]
+  ring
+
+example (s : List Poly) :
+    ((16 : Int) : Ks.R 1) * Ks.ι 1 (C02L.valP 4 1 (Core.Ops.phase s (Ks.mkCt 4 1 [[[6], [0]], [[2], [0]]])))
+      + ((1 : Int) : Ks.R 1) * (((2 : Ks.R 1) ^ 4) ^ (2 + [(2 : Int)].length - (cnvOffsetSplit 4 4).1) * (constTop 1 ((2 : Ks.R 1) ^ 4) [[3], [0]] [2] (cnvOffsetSplit 4 4).1
+          + ∑ i ∈ Finset.range (min s.length [([[1], [0]] : Col)].length), Ks.ι 1 (s.getD i []) * constTop 1 ((2 : Ks.R 1) ^ 4) (([[[1], [0]]] : List Col).getD i []) [2] (cnvOffsetSplit 4 4).1))
+      = ((1 : Int) : Ks.R 1) * ((2 : Ks.R 1) ^ 4 * (colVal 1 ((2 : Ks.R 1) ^ 4) [[3], [0]]
+          + ∑ i ∈ Finset.range (min s.length [([[1], [0]] : Col)].length), Ks.ι 1 (s.getD i []) * colVal 1 ((2 : Ks.R 1) ^ 4) (([[[1], [0]]] : List Col).getD i [])) * constVal 1 ((2 : Ks.R 1) ^ 4) [2])
+        + Ks.ι 1 (C02L.errTo (min [([[1], [0]] : Col)].length s.length) s (fun _ => [0])) :=
+  mul_const_decrypts (N := 1) (by decide) false 4 2 4 4 2 [[3], [0]] [[[1], [0]]] [2] [[[6], [0]], [[2], [0]]]
+    (by decide) rfl (by decide) (by decide) (by decide) (by decide) (by decide) (by decide) (by decide) 16 1 (fun _ => [0]) (fun _ => rfl)
+    (by
+      intro i hi C hC
+      have hi' : i = 0 ∨ i = 1 := by simp at hi; omega
+      rcases hi' with rfl | rfl
+      · have e : bigNormalizeOff false 1 4 2 (cnvOffsetSplit 4 4).2 (((([[3], [0]] : Col) :: [[[1], [0]]]).map (fun x => Core.cnvByConstCol 1
+            (2 + [(2 : Int)].length - (cnvOffsetSplit 4 4).1) (cnvOffsetSplit 4 4).1 x [2])).getD 0 []) 4 = some [[6], [0]] := by decide
+        have hC' := e.symm.trans hC; injection hC' with hC'; subst hC'; decide
+      · have e : bigNormalizeOff false 1 4 2 (cnvOffsetSplit 4 4).2 (((([[3], [0]] : Col) :: [[[1], [0]]]).map (fun x => Core.cnvByConstCol 1
+            (2 + [(2 : Int)].length - (cnvOffsetSplit 4 4).1) (cnvOffsetSplit 4 4).1 x [2])).getD 1 []) 4 = some [[2], [0]] := by decide
+        have hC' := e.symm.trans hC; injection hC' with hC'; subst hC'; decide) s
+/-- **`mul_const_assign_decrypts`** — `glwe_mul_const_assign` (accumulator of `res.size = rs` limbs), composed: the result phase, rescaled by
+`β^{F−rs}`, plus `B·`(the explicit dropped limbs `rs ≤ k < F` of the full convolution + `β^F·`top limbs) is `B·β·val(phase a)·val(b)` plus the rescaled
+normalisation error. -/
+theorem mul_const_assign_decrypts {N : Nat} (hN : 0 < N) (big128 : Bool) (rb rs off b sa : Nat) (a0 : Col) (as : List Col) (cst : List Int)
+    (res : List Col) (h : mulConst true big128 N rb rs off b (a0 :: as) cst = some res)
+    (h0 : a0.length = sa) (hall : ∀ x ∈ as, x.length = sa) (hx0 : ∀ l ∈ a0, l.length = N) (hxs : ∀ x ∈ as, ∀ l ∈ x, l.length = N)
+    (hsa : 1 ≤ sa) (hsb : 1 ≤ cst.length) (hhi : (cnvOffsetSplit b off).1 ≤ sa + cst.length - 1)
+    (hR : rs ≤ sa + cst.length - (cnvOffsetSplit b off).1)
+    (hres : C02L.GWF N (Ks.mkCt rb N res))
+    (A B : Int) (E : Nat → Poly) (hE : ∀ i, (E i).length = N)
+    (hK : ∀ i, i < as.length + 1 → ∀ C,
+      bigNormalizeOff big128 N rb rs (cnvOffsetSplit b off).2
+        (((a0 :: as).map (fun x => cnvByConstCol N rs (cnvOffsetSplit b off).1 x cst)).getD i []) b = some C →
+      polyScale A (C02L.valP rb N C) = polyAdd (polyScale B (C02L.valP b N
+        (((a0 :: as).map (fun x => cnvByConstCol N rs (cnvOffsetSplit b off).1 x cst)).getD i []))) (E i))
+    (s : List Poly) :
+    ((2 : Ks.R N) ^ b) ^ (sa + cst.length - (cnvOffsetSplit b off).1 - rs) * ((A : Ks.R N) * Ks.ι N (C02L.valP rb N (Core.Ops.phase s (Ks.mkCt rb N res))))
+      + (B : Ks.R N) * (∑ k ∈ Finset.Ico rs (sa + cst.length - (cnvOffsetSplit b off).1),
+          Ks.ι N (Ks.phaseRow s (((a0 :: as).map (fun x => cnvByConstCol N (sa + cst.length - (cnvOffsetSplit b off).1) (cnvOffsetSplit b off).1 x cst)).map
+            (fun col => limbOr0 N col k))) * ((2 : Ks.R N) ^ b) ^ (sa + cst.length - (cnvOffsetSplit b off).1 - 1 - k)
+        + ((2 : Ks.R N) ^ b) ^ (sa + cst.length - (cnvOffsetSplit b off).1) * (constTop N ((2 : Ks.R N) ^ b) a0 cst (cnvOffsetSplit b off).1
+          + ∑ i ∈ Finset.range (min s.length as.length), Ks.ι N (s.getD i []) * constTop N ((2 : Ks.R N) ^ b) (as.getD i []) cst (cnvOffsetSplit b off).1))
+      = (B : Ks.R N) * ((2 : Ks.R N) ^ b * (colVal N ((2 : Ks.R N) ^ b) a0
+          + ∑ i ∈ Finset.range (min s.length as.length), Ks.ι N (s.getD i []) * colVal N ((2 : Ks.R N) ^ b) (as.getD i [])) * constVal N ((2 : Ks.R N) ^ b) cst)
+        + ((2 : Ks.R N) ^ b) ^ (sa + cst.length - (cnvOffsetSplit b off).1 - rs) * Ks.ι N (C02L.errTo (min as.length s.length) s E) := by
+  have hm : ((a0 :: as).map (fun x => cnvByConstCol N rs (cnvOffsetSplit b off).1 x cst)).mapM
+      (fun c => bigNormalizeOff big128 N rb rs (cnvOffsetSplit b off).2 c b) = some res := by
+    rw [← mapM_comp]
+    exact h
+  have hwf : ∀ c ∈ (a0 :: as).map (fun x => cnvByConstCol N rs (cnvOffsetSplit b off).1 x cst), C02L.ColWF N rs c := by
+    intro c hc
+    obtain ⟨x, hx, rfl⟩ := List.mem_map.mp hc
+    apply cnvByConstCol_wf
+    rcases List.mem_cons.mp hx with e | e
+    · rw [e]; exact hx0
+    · exact hxs x e
+  have hne : (a0 :: as).map (fun x => cnvByConstCol N rs (cnvOffsetSplit b off).1 x cst) ≠ [] := by simp
+  have hacc : C02L.GWF N (Ks.mkCt b N ((a0 :: as).map (fun x => cnvByConstCol N rs (cnvOffsetSplit b off).1 x cst))) := by
+    refine ⟨rfl, hne, ?_⟩
+    intro c hc
+    have e : (Ks.mkCt b N ((a0 :: as).map (fun x => cnvByConstCol N rs (cnvOffsetSplit b off).1 x cst))).size = rs := by
+      simp [GLWE.size, Ks.mkCt, Core.cnvByConstCol]
+    rw [e]
+    exact hwf c hc
+  have h1 := mapM_kernel_phase_modulo_norm _ rb b _ res hm hres hacc A B E hE (by
+    intro i hi C hC
+    exact hK i (by simpa using hi) C hC) s
+  have e1 : ((a0 :: as).map (fun x => cnvByConstCol N rs (cnvOffsetSplit b off).1 x cst)).length - 1 = as.length := by simp
+  rw [e1] at h1
+  have h2 := phase_norm_compose N hN rb b _ s res _ hne hwf A B _ (C02L.errTo_length _ s E hE) h1
+  have h3 := mul_const_assign_phase_value N hN s a0 as cst (cnvOffsetSplit b off).1 sa rs ((2 : Ks.R N) ^ b) h0 hall hx0 hxs hsa hsb hhi hR
+  linear_combination (((2 : Ks.R N) ^ b) ^ (sa + cst.length - (cnvOffsetSplit b off).1 - rs)) * h2 + (B : Ks.R N) * h3
+
+example (s : List Poly) :
+    ((2 : Ks.R 1) ^ 4) ^ (2 + [(2 : Int)].length - (cnvOffsetSplit 4 4).1 - 2) * (((1 : Int) : Ks.R 1) * Ks.ι 1 (C02L.valP 4 1 (Core.Ops.phase s (Ks.mkCt 4 1 [[[6], [0]], [[2], [0]]]))))
+      + ((1 : Int) : Ks.R 1) * (∑ k ∈ Finset.Ico 2 (2 + [(2 : Int)].length - (cnvOffsetSplit 4 4).1),
+          Ks.ι 1 (Ks.phaseRow s (((([[3], [0]] : Col) :: [[[1], [0]]]).map (fun x => Core.cnvByConstCol 1 (2 + [(2 : Int)].length - (cnvOffsetSplit 4 4).1) (cnvOffsetSplit 4 4).1 x [2])).map
+            (fun col => limbOr0 1 col k))) * ((2 : Ks.R 1) ^ 4) ^ (2 + [(2 : Int)].length - (cnvOffsetSplit 4 4).1 - 1 - k)
+        + ((2 : Ks.R 1) ^ 4) ^ (2 + [(2 : Int)].length - (cnvOffsetSplit 4 4).1) * (constTop 1 ((2 : Ks.R 1) ^ 4) [[3], [0]] [2] (cnvOffsetSplit 4 4).1
+          + ∑ i ∈ Finset.range (min s.length [([[1], [0]] : Col)].length), Ks.ι 1 (s.getD i []) * constTop 1 ((2 : Ks.R 1) ^ 4) (([[[1], [0]]] : List Col).getD i []) [2] (cnvOffsetSplit 4 4).1))
+      = ((1 : Int) : Ks.R 1) * ((2 : Ks.R 1) ^ 4 * (colVal 1 ((2 : Ks.R 1) ^ 4) [[3], [0]]
+          + ∑ i ∈ Finset.range (min s.length [([[1], [0]] : Col)].length), Ks.ι 1 (s.getD i []) * colVal 1 ((2 : Ks.R 1) ^ 4) (([[[1], [0]]] : List Col).getD i [])) * constVal 1 ((2 : Ks.R 1) ^ 4) [2])
+        + ((2 : Ks.R 1) ^ 4) ^ (2 + [(2 : Int)].length - (cnvOffsetSplit 4 4).1 - 2) * Ks.ι 1 (C02L.errTo (min [([[1], [0]] : Col)].length s.length) s (fun _ => [0])) :=
+  mul_const_assign_decrypts (N := 1) (by decide) false 4 2 4 4 2 [[3], [0]] [[[1], [0]]] [2] [[[6], [0]], [[2], [0]]]
+    (by decide) rfl (by decide) (by decide) (by decide) (by decide) (by decide) (by decide) (by decide) (by decide) 1 1 (fun _ => [0]) (fun _ => rfl)
+    (by
+      intro i hi C hC
+      have hi' : i = 0 ∨ i = 1 := by simp at hi; omega
+      rcases hi' with rfl | rfl
+      · have e : bigNormalizeOff false 1 4 2 (cnvOffsetSplit 4 4).2 (((([[3], [0]] : Col) :: [[[1], [0]]]).map (fun x => Core.cnvByConstCol 1
+            2 (cnvOffsetSplit 4 4).1 x [2])).getD 0 []) 4 = some [[6], [0]] := by decide
+        have hC' := e.symm.trans hC; injection hC' with hC'; subst hC'; decide
+      · have e : bigNormalizeOff false 1 4 2 (cnvOffsetSplit 4 4).2 (((([[3], [0]] : Col) :: [[[1], [0]]]).map (fun x => Core.cnvByConstCol 1
+            2 (cnvOffsetSplit 4 4).1 x [2])).getD 1 []) 4 = some [[2], [0]] := by decide
+        have hC' := e.symm.trans hC; injection hC' with hC'; subst hC'; decide) s
+/-- **`mul_plain_decrypts`** — `glwe_mul_plain`, same composed statement: the operands entering the value are the masked ones
+(`cnv_prepare_left/right`, `mask_keeps_top_bits`). -/
+theorem mul_plain_decrypts {N : Nat} (hN : 0 < N) (big128 : Bool) (rb rs off b sa : Nat) (a0 : Col) (as : List Col) (aK : Nat) (pt : Col) (bK : Nat)
+    (res : List Col) (h : mulPlain big128 N rb rs off b (a0 :: as) aK pt bK = some res)
+    (h0 : a0.length = sa) (hall : ∀ x ∈ as, x.length = sa) (hx0 : ∀ l ∈ a0, l.length = N) (hxs : ∀ x ∈ as, ∀ l ∈ x, l.length = N)
+    (hpt : ∀ l ∈ pt, l.length = N) (hsa : 1 ≤ sa) (hsb : 1 ≤ pt.length) (hhi : (cnvOffsetSplit b off).1 ≤ sa + pt.length - 1)
+    (hres : C02L.GWF N (Ks.mkCt rb N res))
+    (A B : Int) (E : Nat → Poly) (hE : ∀ i, (E i).length = N)
+    (hK : ∀ i, i < as.length + 1 → ∀ C,
+      bigNormalizeOff big128 N rb rs (cnvOffsetSplit b off).2
+        (((prepAll N (msbMaskBottomLimb b aK) (a0 :: as)).map (fun x => Hal.cnvApplyCol N (sa + pt.length - (cnvOffsetSplit b off).1) (cnvOffsetSplit b off).1 x
+          (Hal.cnvPrepareCol N pt.length (msbMaskBottomLimb b bK) pt))).getD i []) b = some C →
+      polyScale A (C02L.valP rb N C) = polyAdd (polyScale B (C02L.valP b N
+        (((prepAll N (msbMaskBottomLimb b aK) (a0 :: as)).map (fun x => Hal.cnvApplyCol N (sa + pt.length - (cnvOffsetSplit b off).1) (cnvOffsetSplit b off).1 x
+          (Hal.cnvPrepareCol N pt.length (msbMaskBottomLimb b bK) pt))).getD i []))) (E i))
+    (s : List Poly) :
+    (A : Ks.R N) * Ks.ι N (C02L.valP rb N (Core.Ops.phase s (Ks.mkCt rb N res)))
+      + (B : Ks.R N) * (((2 : Ks.R N) ^ b) ^ (sa + pt.length - (cnvOffsetSplit b off).1) *
+          (plainTop N ((2 : Ks.R N) ^ b) (Hal.cnvPrepareCol N a0.length (msbMaskBottomLimb b aK) a0) (Hal.cnvPrepareCol N pt.length (msbMaskBottomLimb b bK) pt) (cnvOffsetSplit b off).1
+          + ∑ i ∈ Finset.range (min s.length as.length), Ks.ι N (s.getD i []) *
+              plainTop N ((2 : Ks.R N) ^ b) ((prepAll N (msbMaskBottomLimb b aK) as).getD i []) (Hal.cnvPrepareCol N pt.length (msbMaskBottomLimb b bK) pt) (cnvOffsetSplit b off).1))
+      = (B : Ks.R N) * ((2 : Ks.R N) ^ b * (colVal N ((2 : Ks.R N) ^ b) (Hal.cnvPrepareCol N a0.length (msbMaskBottomLimb b aK) a0)
+          + ∑ i ∈ Finset.range (min s.length as.length), Ks.ι N (s.getD i []) * colVal N ((2 : Ks.R N) ^ b) ((prepAll N (msbMaskBottomLimb b aK) as).getD i []))
+            * colVal N ((2 : Ks.R N) ^ b) (Hal.cnvPrepareCol N pt.length (msbMaskBottomLimb b bK) pt))
+        + Ks.ι N (C02L.errTo (min as.length s.length) s E) := by
+  subst h0
+  have hm : ((prepAll N (msbMaskBottomLimb b aK) (a0 :: as)).map (fun x => Hal.cnvApplyCol N (a0.length + pt.length - (cnvOffsetSplit b off).1) (cnvOffsetSplit b off).1 x
+      (Hal.cnvPrepareCol N pt.length (msbMaskBottomLimb b bK) pt))).mapM (fun c => bigNormalizeOff big128 N rb rs (cnvOffsetSplit b off).2 c b) = some res := by
+    rw [← mapM_comp]
+    exact h
+  have hptP := cnvPrepareCol_limbs N pt.length (msbMaskBottomLimb b bK) pt hpt
+  have hwf : ∀ c ∈ (prepAll N (msbMaskBottomLimb b aK) (a0 :: as)).map (fun x => Hal.cnvApplyCol N (a0.length + pt.length - (cnvOffsetSplit b off).1) (cnvOffsetSplit b off).1 x
+      (Hal.cnvPrepareCol N pt.length (msbMaskBottomLimb b bK) pt)), C02L.ColWF N (a0.length + pt.length - (cnvOffsetSplit b off).1) c := by
+    intro c hc
+    obtain ⟨x, _, rfl⟩ := List.mem_map.mp hc
+    exact cnvApplyCol_wf N _ _ x _ hptP
+  have hne : (prepAll N (msbMaskBottomLimb b aK) (a0 :: as)).map (fun x => Hal.cnvApplyCol N (a0.length + pt.length - (cnvOffsetSplit b off).1) (cnvOffsetSplit b off).1 x
+      (Hal.cnvPrepareCol N pt.length (msbMaskBottomLimb b bK) pt)) ≠ [] := by simp [prepAll]
+  have hacc : C02L.GWF N (Ks.mkCt b N ((prepAll N (msbMaskBottomLimb b aK) (a0 :: as)).map (fun x => Hal.cnvApplyCol N (a0.length + pt.length - (cnvOffsetSplit b off).1) (cnvOffsetSplit b off).1 x
+      (Hal.cnvPrepareCol N pt.length (msbMaskBottomLimb b bK) pt)))) := by
+    refine ⟨rfl, hne, ?_⟩
+    intro c hc
+    have e : (Ks.mkCt b N ((prepAll N (msbMaskBottomLimb b aK) (a0 :: as)).map (fun x => Hal.cnvApplyCol N (a0.length + pt.length - (cnvOffsetSplit b off).1) (cnvOffsetSplit b off).1 x
+        (Hal.cnvPrepareCol N pt.length (msbMaskBottomLimb b bK) pt)))).size = a0.length + pt.length - (cnvOffsetSplit b off).1 := by
+      simp [GLWE.size, Ks.mkCt, prepAll, Hal.cnvApplyCol]
+    rw [e]
+    exact hwf c hc
+  have h1 := mapM_kernel_phase_modulo_norm _ rb b _ res hm hres hacc A B E hE (by
+    intro i hi C hC
+    exact hK i (by simpa [prepAll] using hi) C hC) s
+  have e1 : ((prepAll N (msbMaskBottomLimb b aK) (a0 :: as)).map (fun x => Hal.cnvApplyCol N (a0.length + pt.length - (cnvOffsetSplit b off).1) (cnvOffsetSplit b off).1 x
+      (Hal.cnvPrepareCol N pt.length (msbMaskBottomLimb b bK) pt))).length - 1 = as.length := by simp [prepAll]
+  rw [e1] at h1
+  have h2 := phase_norm_compose N hN rb b _ s res _ hne hwf A B _ (C02L.errTo_length _ s E hE) h1
+  have h3 := mul_plain_phase_value N hN s (Hal.cnvPrepareCol N a0.length (msbMaskBottomLimb b aK) a0) (prepAll N (msbMaskBottomLimb b aK) as)
+    (Hal.cnvPrepareCol N pt.length (msbMaskBottomLimb b bK) pt) (cnvOffsetSplit b off).1 a0.length ((2 : Ks.R N) ^ b)
+    (Hal.cnvPrepareCol_length _ _ _ _)
+    (by
+      intro x hx
+      obtain ⟨c, hc, rfl⟩ := List.mem_map.mp hx
+      rw [Hal.cnvPrepareCol_length]; exact hall c hc)
+    (cnvPrepareCol_limbs N _ _ a0 hx0)
+    (by
+      intro x hx
+      obtain ⟨c, hc, rfl⟩ := List.mem_map.mp hx
+      exact cnvPrepareCol_limbs N _ _ c (hxs c hc))
+    hptP hsa (by rw [Hal.cnvPrepareCol_length]; exact hsb) (by rw [Hal.cnvPrepareCol_length]; exact hhi)
+  rw [Hal.cnvPrepareCol_length] at h3
+  have e2 : prepAll N (msbMaskBottomLimb b aK) (a0 :: as)
+      = Hal.cnvPrepareCol N a0.length (msbMaskBottomLimb b aK) a0 :: prepAll N (msbMaskBottomLimb b aK) as := rfl
+  rw [e2] at h2
+  have e3 : (prepAll N (msbMaskBottomLimb b aK) as).length = as.length := by simp [prepAll]
+  rw [e3] at h3
+  rw [h2, ← h3]
+  ring
+
+example (s : List Poly) :
+    ((16 : Int) : Ks.R 1) * Ks.ι 1 (C02L.valP 4 1 (Core.Ops.phase s (Ks.mkCt 4 1 [[[6], [0]], [[2], [0]]])))
+      + ((1 : Int) : Ks.R 1) * (((2 : Ks.R 1) ^ 4) ^ (2 + ([[2]] : Col).length - (cnvOffsetSplit 4 4).1) *
+          (plainTop 1 ((2 : Ks.R 1) ^ 4) (Hal.cnvPrepareCol 1 ([[3], [0]] : Col).length (msbMaskBottomLimb 4 8) [[3], [0]])
+              (Hal.cnvPrepareCol 1 ([[2]] : Col).length (msbMaskBottomLimb 4 4) [[2]]) (cnvOffsetSplit 4 4).1
+          + ∑ i ∈ Finset.range (min s.length [([[1], [0]] : Col)].length), Ks.ι 1 (s.getD i []) *
+              plainTop 1 ((2 : Ks.R 1) ^ 4) ((prepAll 1 (msbMaskBottomLimb 4 8) [[[1], [0]]]).getD i [])
+                (Hal.cnvPrepareCol 1 ([[2]] : Col).length (msbMaskBottomLimb 4 4) [[2]]) (cnvOffsetSplit 4 4).1))
+      = ((1 : Int) : Ks.R 1) * ((2 : Ks.R 1) ^ 4 * (colVal 1 ((2 : Ks.R 1) ^ 4) (Hal.cnvPrepareCol 1 ([[3], [0]] : Col).length (msbMaskBottomLimb 4 8) [[3], [0]])
+          + ∑ i ∈ Finset.range (min s.length [([[1], [0]] : Col)].length), Ks.ι 1 (s.getD i []) *
+              colVal 1 ((2 : Ks.R 1) ^ 4) ((prepAll 1 (msbMaskBottomLimb 4 8) [[[1], [0]]]).getD i []))
+            * colVal 1 ((2 : Ks.R 1) ^ 4) (Hal.cnvPrepareCol 1 ([[2]] : Col).length (msbMaskBottomLimb 4 4) [[2]]))
+        + Ks.ι 1 (C02L.errTo (min [([[1], [0]] : Col)].length s.length) s (fun _ => [0])) :=
+  mul_plain_decrypts (N := 1) (by decide) false 4 2 4 4 2 [[3], [0]] [[[1], [0]]] 8 [[2]] 4 [[[6], [0]], [[2], [0]]]
+    (by decide) rfl (by decide) (by decide) (by decide) (by decide) (by decide) (by decide) (by decide) (by decide) 16 1 (fun _ => [0]) (fun _ => rfl)
+    (by
+      intro i hi C hC
+      have hi' : i = 0 ∨ i = 1 := by simp at hi; omega
+      rcases hi' with rfl | rfl
+      · have e : bigNormalizeOff false 1 4 2 (cnvOffsetSplit 4 4).2 (((prepAll 1 (msbMaskBottomLimb 4 8) (([[3], [0]] : Col) :: [[[1], [0]]])).map
+            (fun x => Hal.cnvApplyCol 1 (2 + ([[2]] : Col).length - (cnvOffsetSplit 4 4).1) (cnvOffsetSplit 4 4).1 x
+              (Hal.cnvPrepareCol 1 ([[2]] : Col).length (msbMaskBottomLimb 4 4) [[2]]))).getD 0 []) 4 = some [[6], [0]] := by decide
+        have hC' := e.symm.trans hC; injection hC' with hC'; subst hC'; decide
+      · have e : bigNormalizeOff false 1 4 2 (cnvOffsetSplit 4 4).2 (((prepAll 1 (msbMaskBottomLimb 4 8) (([[3], [0]] : Col) :: [[[1], [0]]])).map
+            (fun x => Hal.cnvApplyCol 1 (2 + ([[2]] : Col).length - (cnvOffsetSplit 4 4).1) (cnvOffsetSplit 4 4).1 x
+              (Hal.cnvPrepareCol 1 ([[2]] : Col).length (msbMaskBottomLimb 4 4) [[2]]))).getD 1 []) 4 = some [[2], [0]] := by decide
+        have hC' := e.symm.trans hC; injection hC' with hC'; subst hC'; decide) s
+instance (c : Col) : Decidable (C02L.ColSmall c) := by unfold C02L.ColSmall C02L.PolySmall; infer_instance
+instance (N : Nat) (c : Col) : Decidable (C02L.LimbsN N c) := by unfold C02L.LimbsN; infer_instance
+
+/-- the tensor's pair columns as handed to the gadget product when the tensor is in the key radix -/
+def relinInput (n : Nat) (a : List Col) (g : GGLWE) : List Col :=
+  (List.range g.colsIn).map (fun i =>
+    Hal.dftApplyCol n 1 0 (((a.getD 0 []).length * g.base2k + g.base2k - 1) / g.base2k) (a.getD (g.colsOut + i) []))
+
+/-- **`relin_decrypts`** — `glwe_tensor_relinearize` with the tensor in the key radix, i64 accumulator (FFT64), every key digit size: one
+composed statement.  `A·phase(res) = B·(Σ_p σ_p·usedVal(a_p) + Σ_p(Σ_r digit·E − dropped − β^S·head) + phase(first columns of the tensor at S limbs))
++ (E₀ + Σ s_i E_{i+1})`: the pair columns are re-encrypted under `s` by the gadget product (`relin_product_value`), the first `rank+1` columns are
+added exactly (`Core.bigAddSmallAssign_exact`, 2^62 head-room), and the final normalisation contributes the kernel relation `(A, B, En)`
+(`Core.acc_norm_compose`, `Lemmas/AccAdd.lean`).  With `σ_p = s_i·s_j` this is `tensor_phase` evaluated under `s`. -/
+theorem relin_decrypts {N : Nat} (rb rs : Nat) (a : List Col) (g : GGLWE) (res0 res : List Col) (sk : List Poly)
+    (hok : relinearize false N rb rs a g.base2k g g.size res0 = some res)
+    (A B : Int) (En : Nat → Poly) (hEn : ∀ i, (En i).length = N)
+    (hPwf : ∀ c ∈ Core.gglweProductDft (relinInput N a g) g g.size res0, C02L.ColWF N g.size c)
+    (hPs : ∀ c ∈ Core.gglweProductDft (relinInput N a g) g g.size res0, C02L.ColSmall c)
+    (hawf : ∀ j, j < g.colsOut → C02L.LimbsN N (a.getD j [])) (has : ∀ j, j < g.colsOut → C02L.ColSmall (a.getD j []))
+    (hres : C02L.GWF N (Ks.mkCt rb N res))
+    (hK : ∀ i, i < g.colsOut → ∀ C,
+      bigNormalizeOff false N rb rs 0 (bigAddSmallAssign false ((Core.gglweProductDft (relinInput N a g) g g.size res0).getD i []) (a.getD i [])) g.base2k
+        = some C →
+      polyScale A (C02L.valP rb N C) = polyAdd (polyScale B (C02L.valP g.base2k N
+        (bigAddSmallAssign false ((Core.gglweProductDft (relinInput N a g) g g.size res0).getD i []) (a.getD i [])))) (En i))
+    (σ : ℕ → Ks.R N) (E : ℕ → ℕ → Ks.R N)
+    (hd : 1 ≤ g.dsize) (hN : 0 < N) (hn : g.n = N) (hc : 0 < g.colsOut)
+    (h0 : shapeOk g.n g.colsOut g.size res0 = true) (hM : ∀ j q, (g.toPMat.entry j q).length = N)
+    (hS : g.dnum * g.dsize ≤ g.size)
+    (hkey : ∀ i, i < g.colsIn → ∀ r, r < g.dnum →
+      Gadget.val ((2 : Ks.R N) ^ g.base2k) g.size (Ks.keyPhase N sk g.toPMat i r)
+        = 1 * σ i * ((2 : Ks.R N) ^ g.base2k) ^ (g.size - (r + 1) * g.dsize) + E i r) :
+    (A : Ks.R N) * Ks.ι N (C02L.valP rb N (Core.Ops.phase sk (Ks.mkCt rb N res)))
+      = (B : Ks.R N) * ((1 * ∑ i ∈ Finset.range g.colsIn,
+            σ i * Gadget.usedVal ((2 : Ks.R N) ^ g.base2k) g.size g.dsize g.dnum ((relinInput N a g).getD 0 []).length
+              (Ks.inLimb N (mkBuf g.n g.colsIn ((relinInput N a g).getD 0 []).length (relinInput N a g)) i)
+        + ∑ i ∈ Finset.range g.colsIn,
+            (∑ r ∈ Finset.range g.dnum,
+                Gadget.digit ((2 : Ks.R N) ^ g.base2k) g.dsize g.dnum ((relinInput N a g).getD 0 []).length
+                  (Ks.inLimb N (mkBuf g.n g.colsIn ((relinInput N a g).getD 0 []).length (relinInput N a g)) i) r * E i r
+              - Gadget.dropped ((2 : Ks.R N) ^ g.base2k) g.size g.dsize g.dnum ((relinInput N a g).getD 0 []).length
+                  (Ks.inLimb N (mkBuf g.n g.colsIn ((relinInput N a g).getD 0 []).length (relinInput N a g)) i) (Ks.keyPhase N sk g.toPMat i)
+              - ((2 : Ks.R N) ^ g.base2k) ^ g.size * Gadget.head ((2 : Ks.R N) ^ g.base2k) g.dsize g.dnum ((relinInput N a g).getD 0 []).length
+                  (Ks.inLimb N (mkBuf g.n g.colsIn ((relinInput N a g).getD 0 []).length (relinInput N a g)) i) (Ks.keyPhase N sk g.toPMat i)))
+          + Ks.ι N (C02L.valP g.base2k N (Core.Ops.phase sk (Ks.mkCt g.base2k N
+              ((List.range g.colsOut).map (fun j => C02L.fit N g.size (a.getD j [])))))))
+        + Ks.ι N (C02L.errTo (min (g.colsOut - 1) sk.length) sk En) := by
+  obtain ⟨n, hn1⟩ : ∃ n, g.colsOut = n + 1 := ⟨g.colsOut - 1, by omega⟩
+  unfold relinearize at hok
+  simp only [ne_eq, not_true_eq_false, if_false, if_true, mapM_some_map, Option.bind_some] at hok
+  have hPlen : (Core.gglweProductDft (relinInput N a g) g g.size res0).length = n + 1 := by
+    simp [Core.gglweProductDft, hn1]
+  have hm : (List.range (n + 1)).mapM (fun j => (fun c => bigNormalizeOff false N rb rs 0 c g.base2k)
+      (bigAddSmallAssign false ((Core.gglweProductDft (relinInput N a g) g g.size res0).getD j []) (a.getD j []))) = some res := by
+    rw [mapM_comp (fun j => bigAddSmallAssign false ((Core.gglweProductDft (relinInput N a g) g g.size res0).getD j []) (a.getD j []))
+      (fun c => bigNormalizeOff false N rb rs 0 c g.base2k), ← hn1]
+    exact hok
+  have h := acc_norm_compose N hN (fun c => bigNormalizeOff false N rb rs 0 c g.base2k) rb g.base2k g.size n
+    (Core.gglweProductDft (relinInput N a g) g g.size res0) (fun j => a.getD j []) res sk hPlen hPwf hPs
+    (fun j hj => hawf j (by omega)) (fun j hj => has j (by omega)) hm hres A B En hEn (fun i hi => hK i (by omega))
+  have h3 := relin_product_value N sk (relinInput N a g) g res0 ((2 : Ks.R N) ^ g.base2k) σ E hd hN hn hc h0 hM hS hkey
+  rw [h, h3, hn1]
+  simp only [Nat.add_sub_cancel]
+
+example (σ : ℕ → Ks.R 1) :
+    ((1 : Int) : Ks.R 1) * Ks.ι 1 (C02L.valP 4 1 (Core.Ops.phase [[1]] (Ks.mkCt 4 1 [[[2], [0], [0]], [[2], [2], [0]]])))
+      = ((1 : Int) : Ks.R 1) * ((1 * ∑ i ∈ Finset.range exTsk.colsIn,
+            σ i * Gadget.usedVal ((2 : Ks.R 1) ^ exTsk.base2k) exTsk.size exTsk.dsize exTsk.dnum ((relinInput 1 ([[[1], [0]], [[0], [1]], [[2], [1]]] : List Col) exTsk).getD 0 []).length
+              (Ks.inLimb 1 (mkBuf exTsk.n exTsk.colsIn ((relinInput 1 ([[[1], [0]], [[0], [1]], [[2], [1]]] : List Col) exTsk).getD 0 []).length (relinInput 1 ([[[1], [0]], [[0], [1]], [[2], [1]]] : List Col) exTsk)) i)
+        + ∑ i ∈ Finset.range exTsk.colsIn,
+            (∑ r ∈ Finset.range exTsk.dnum,
+                Gadget.digit ((2 : Ks.R 1) ^ exTsk.base2k) exTsk.dsize exTsk.dnum ((relinInput 1 ([[[1], [0]], [[0], [1]], [[2], [1]]] : List Col) exTsk).getD 0 []).length
+                  (Ks.inLimb 1 (mkBuf exTsk.n exTsk.colsIn ((relinInput 1 ([[[1], [0]], [[0], [1]], [[2], [1]]] : List Col) exTsk).getD 0 []).length (relinInput 1 ([[[1], [0]], [[0], [1]], [[2], [1]]] : List Col) exTsk)) i) r *
+                  (Gadget.val ((2 : Ks.R 1) ^ exTsk.base2k) exTsk.size (Ks.keyPhase 1 [[1]] exTsk.toPMat i r)
+                    - 1 * σ i * ((2 : Ks.R 1) ^ exTsk.base2k) ^ (exTsk.size - (r + 1) * exTsk.dsize))
+              - Gadget.dropped ((2 : Ks.R 1) ^ exTsk.base2k) exTsk.size exTsk.dsize exTsk.dnum ((relinInput 1 ([[[1], [0]], [[0], [1]], [[2], [1]]] : List Col) exTsk).getD 0 []).length
+                  (Ks.inLimb 1 (mkBuf exTsk.n exTsk.colsIn ((relinInput 1 ([[[1], [0]], [[0], [1]], [[2], [1]]] : List Col) exTsk).getD 0 []).length (relinInput 1 ([[[1], [0]], [[0], [1]], [[2], [1]]] : List Col) exTsk)) i) (Ks.keyPhase 1 [[1]] exTsk.toPMat i)
+              - ((2 : Ks.R 1) ^ exTsk.base2k) ^ exTsk.size * Gadget.head ((2 : Ks.R 1) ^ exTsk.base2k) exTsk.dsize exTsk.dnum ((relinInput 1 ([[[1], [0]], [[0], [1]], [[2], [1]]] : List Col) exTsk).getD 0 []).length
+                  (Ks.inLimb 1 (mkBuf exTsk.n exTsk.colsIn ((relinInput 1 ([[[1], [0]], [[0], [1]], [[2], [1]]] : List Col) exTsk).getD 0 []).length (relinInput 1 ([[[1], [0]], [[0], [1]], [[2], [1]]] : List Col) exTsk)) i) (Ks.keyPhase 1 [[1]] exTsk.toPMat i)))
+          + Ks.ι 1 (C02L.valP exTsk.base2k 1 (Core.Ops.phase [[1]] (Ks.mkCt exTsk.base2k 1
+              ((List.range exTsk.colsOut).map (fun j => C02L.fit 1 exTsk.size (([[[1], [0]], [[0], [1]], [[2], [1]]] : List Col).getD j [])))))))
+        + Ks.ι 1 (C02L.errTo (min (exTsk.colsOut - 1) ([[1]] : List Poly).length) [[1]] (fun _ => [0])) :=
+  relin_decrypts (N := 1) 4 3 ([[[1], [0]], [[0], [1]], [[2], [1]]] : List Col) exTsk (zeroCols 1 2 3) [[[2], [0], [0]], [[2], [2], [0]]] [[1]]
+    (by decide +kernel) 1 1 (fun _ => [0]) (fun _ => rfl)
+    (by decide +kernel) (by decide +kernel) (by decide) (by decide) (by decide)
+    (by
+      intro i hi C hC
+      have hi' : i = 0 ∨ i = 1 := by have : i < 2 := hi; omega
+      rcases hi' with rfl | rfl
+      · have e : bigNormalizeOff false 1 4 3 0 (bigAddSmallAssign false ((Core.gglweProductDft (relinInput 1 ([[[1], [0]], [[0], [1]], [[2], [1]]] : List Col) exTsk) exTsk exTsk.size (zeroCols 1 2 3)).getD 0 []) (([[[1], [0]], [[0], [1]], [[2], [1]]] : List Col).getD 0 [])) exTsk.base2k
+            = some [[2], [0], [0]] := by decide +kernel
+        have hC' := e.symm.trans hC; injection hC' with hC'; subst hC'; decide +kernel
+      · have e : bigNormalizeOff false 1 4 3 0 (bigAddSmallAssign false ((Core.gglweProductDft (relinInput 1 ([[[1], [0]], [[0], [1]], [[2], [1]]] : List Col) exTsk) exTsk exTsk.size (zeroCols 1 2 3)).getD 1 []) (([[[1], [0]], [[0], [1]], [[2], [1]]] : List Col).getD 1 [])) exTsk.base2k
+            = some [[2], [2], [0]] := by decide +kernel
+        have hC' := e.symm.trans hC; injection hC' with hC'; subst hC'; decide +kernel)
+    σ (fun i r => Gadget.val ((2 : Ks.R 1) ^ exTsk.base2k) exTsk.size (Ks.keyPhase 1 [[1]] exTsk.toPMat i r)
+                    - 1 * σ i * ((2 : Ks.R 1) ^ exTsk.base2k) ^ (exTsk.size - (r + 1) * exTsk.dsize))
+    (by decide) (by decide) rfl (by decide) (by decide) (Ks.entry_length exTsk.toPMat 1 rfl (by decide +kernel)) (by decide)
+    (by intro i _ r _; exact (add_sub_cancel _ _).symm)
 /-
 NOT PROVED (checked by correspondence on every generated case, see docs/C05.md):
 * `tensorSquare_eq_tensorApply` and `tensorApply_acc_eq_add` for ranks ≥ 3 (the property's quantifier is rank 1..2;
